@@ -387,6 +387,13 @@ theorem http_header_roundtrip (md : MD) (hcan : ∀ kv ∈ md, canon kv.1 = kv.1
 
 example : ∀ kv ∈ ([("X-A".toList, [[1]]), ("Content-Type".toList, [[2], [3]])] : MD), canon kv.1 = kv.1 := by decide
 
+/-- The `message` parameter of a Connect GET as the reference client's raw request sender writes
+it (`base64.URLEncoding`: URL-safe alphabet, padded) reads back to the message bytes: padding
+removed, alphabet mapped back, decoded - for every byte string. -/
+theorem get_message_roundtrip (x : Bytes) :
+    ConfModel.Base64.decodeURLPadded (ConfModel.Base64.encodeURLPadded x) = some x :=
+  ConfModel.Base64.decodeURLPadded_encode x
+
 /-! ## strict codecs (relative to the underlying marshaller) -/
 
 theorem strict_codec_roundtrip {M} (c : Codec M) (h : c.RoundTrips) (m : M) (d : Bytes)
